@@ -61,7 +61,7 @@ func (c *Ctx) atomLabel(a Atom) string {
 			return "S==nil"
 		}
 		if cl, _ := callOf(a.X); cl != nil {
-			if cal := cl.Call.StaticCallee(); cal != nil {
+			if cal := calleeOf(&cl.Call); cal != nil {
 				return "err:" + cal.Name()
 			}
 		}
@@ -117,7 +117,7 @@ func (c *Ctx) atomLabel(a Atom) string {
 }
 
 func calleeShort(cl *ssa.Call) string {
-	if cal := cl.Call.StaticCallee(); cal != nil {
+	if cal := calleeOf(&cl.Call); cal != nil {
 		return cal.Name()
 	}
 	n := calleeFullName(&cl.Call)
@@ -157,7 +157,7 @@ func (c *Ctx) seenThrough(a Atom) bool {
 	if call == nil {
 		return false
 	}
-	return !c.opaqueHelper(call.Call.StaticCallee())
+	return !c.opaqueHelper(calleeOf(&call.Call))
 }
 
 // predUnit: f plus the non-anchor module helpers it calls (transitively): the code that implements f's definition.
@@ -166,7 +166,7 @@ func (c *Ctx) predUnit(f *ssa.Function) []*ssa.Function {
 	seen := map[*ssa.Function]bool{f: true}
 	for i := 0; i < len(out); i++ {
 		for _, call := range callsIn(out[i]) {
-			cal := call.Common().StaticCallee()
+			cal := calleeOf(call.Common())
 			if cal == nil || !c.InModule(cal) || cal.Blocks == nil || seen[cal] || c.opaqueHelper(cal) {
 				continue
 			}
@@ -248,8 +248,8 @@ func (c *Ctx) boolReturns(f *ssa.Function) []boolRet {
 				facts[c.atomLabel(a)+":"+tfs(holds)] = true
 			}
 			alts := [][]factAtom{nil}
-			if cl, k := helperOutcome(c.Prog, a); cl != nil && !c.opaqueHelper(cl.Call.StaticCallee()) {
-				h := cl.Call.StaticCallee()
+			if cl, k := helperOutcome(c.Prog, a); cl != nil && !c.opaqueHelper(calleeOf(&cl.Call)) {
+				h := calleeOf(&cl.Call)
 				e := env{}
 				for i, prm := range h.Params {
 					if i < len(cl.Call.Args) {
@@ -548,7 +548,7 @@ func ruleRD1(c *Ctx) {
 	var sortedArg ssa.Value
 	if len(sorts) == 0 {
 		for _, call := range callsIn(rt) {
-			cal := call.Common().StaticCallee()
+			cal := calleeOf(call.Common())
 			if cal == nil || !c.InModule(cal) || len(cal.Params) == 0 {
 				continue
 			}
@@ -642,7 +642,7 @@ func (c *Ctx) comparatorShape(lf *ssa.Function) (primary string, tie bool) {
 					}
 				}
 				// a named comparator applied to the same two elements in the same order
-				if h := cl.Call.StaticCallee(); h != nil && c.InModule(h) && h.Blocks != nil && h != lf && len(cl.Call.Args) == 2 && len(h.Params) == 2 &&
+				if h := calleeOf(&cl.Call); h != nil && c.InModule(h) && h.Blocks != nil && h != lf && len(cl.Call.Args) == 2 && len(h.Params) == 2 &&
 					resolve(cl.Call.Args[0]) == ssa.Value(pi) && resolve(cl.Call.Args[1]) == ssa.Value(pj) {
 					p2, t2 := c.comparatorShape(h)
 					if p2 != "" {
@@ -750,6 +750,18 @@ func ruleRD2(c *Ctx) {
 							}
 						} else if _, kn, ok := fieldLoad(lk.Index); ok && kn == keyField {
 							found = true
+						} else if prm, ok := resolve(lk.Index).(*ssa.Parameter); ok {
+							// the scan lives in a helper that is handed the key (hasUnfinishedDep(task.ID))
+							args := c.argValues(prm.Parent(), paramIndex(prm))
+							all := len(args) > 0
+							for _, a := range args {
+								if _, an, ok := fieldLoad(a); !ok || an != keyField {
+									all = false
+								}
+							}
+							if all {
+								found = true
+							}
 						}
 					}
 				}
@@ -766,8 +778,10 @@ func ruleRD2(c *Ctx) {
 		ok := false
 		for _, g := range c.predUnit(f) {
 			for _, call := range callsTo(g, aedc) {
-				if _, n, okf := fieldLoad(call.Common().Args[0]); okf && n == "EpicID" {
-					ok = true
+				for _, a := range call.Common().Args {
+					if _, n, okf := fieldLoad(a); okf && n == "EpicID" {
+						ok = true
+					}
 				}
 			}
 		}
@@ -930,9 +944,138 @@ func keysOf[T any](m map[string]T) map[string]bool {
 	return out
 }
 
+// switchTable: the transition table written as a function of the source state: every return hands back a slice literal
+// of state constants, selected by equality tests of the (string) parameter.
+func (c *Ctx) switchTable(vt *ssa.Function) (map[string]map[string]bool, *ssa.Function) {
+	for _, g := range c.predUnit(vt) {
+		if g == vt || len(g.Params) != 1 || g.Params[0].Type().String() != "string" {
+			continue
+		}
+		res := g.Signature.Results()
+		if res.Len() == 0 || res.At(0).Type().String() != "[]string" {
+			continue
+		}
+		table := map[string]map[string]bool{}
+		for _, r := range returnsOf(g) {
+			elems, ok := sliceLiteralStrings(returnedValue(r, 0))
+			if !ok {
+				continue
+			}
+			for _, bf := range directFacts(g) {
+				if bf.A.Kind != "const" || !bf.Holds || resolve(bf.A.X) != ssa.Value(g.Params[0]) {
+					continue
+				}
+				if directCase(g, bf.E, r.Block()) && reach(bf.E.To(), nil, nil)[r.Block()] {
+					row := map[string]bool{}
+					for _, e := range elems {
+						row[e] = true
+					}
+					table[constStr(bf.A.C)] = row
+				}
+			}
+		}
+		if len(table) >= 3 {
+			return table, g
+		}
+	}
+	return nil, nil
+}
+
+// sliceLiteralStrings: v is a []string{...} literal of constants.
+func sliceLiteralStrings(v ssa.Value) ([]string, bool) {
+	sl, ok := resolve(v).(*ssa.Slice)
+	if !ok {
+		return nil, false
+	}
+	al, ok := sl.X.(*ssa.Alloc)
+	if !ok || al.Referrers() == nil {
+		return nil, false
+	}
+	var out []string
+	for _, r := range *al.Referrers() {
+		ia, ok := r.(*ssa.IndexAddr)
+		if !ok || ia.Referrers() == nil {
+			continue
+		}
+		for _, u := range *ia.Referrers() {
+			if st, ok := u.(*ssa.Store); ok {
+				s, isC := constString(st.Val)
+				if !isC {
+					return nil, false
+				}
+				out = append(out, s)
+			}
+		}
+	}
+	return out, len(out) > 0
+}
+
+// acceptsViaTableFn: the accepting return r of the transition validator is dominated by a successful membership test of
+// its `to` parameter in tableFn(from).
+func (c *Ctx) acceptsViaTableFn(vt *ssa.Function, r *ssa.Return, tableFn *ssa.Function) bool {
+	if len(vt.Params) != 2 {
+		return false
+	}
+	from, to := vt.Params[0], vt.Params[1]
+	member := edgesWhere(vt, func(a Atom, holds bool) bool {
+		if a.Kind != "bool" || !holds || len(a.Env) > 0 {
+			return false
+		}
+		cl, _ := callOf(a.X)
+		if cl == nil || len(cl.Call.Args) != 2 {
+			return false
+		}
+		h := calleeOf(&cl.Call)
+		if h == nil || !c.InModule(h) || h.Blocks == nil {
+			return false
+		}
+		// arguments: the row of `from`, and `to`
+		tc, idx := callOf(cl.Call.Args[0])
+		if tc == nil || calleeOf(&tc.Call) != tableFn || idx > 0 || len(tc.Call.Args) != 1 || resolve(tc.Call.Args[0]) != ssa.Value(from) {
+			return false
+		}
+		if resolve(cl.Call.Args[1]) != ssa.Value(to) {
+			return false
+		}
+		// the helper is a membership test: it answers true only on an equality of an element with its second parameter
+		okEq := false
+		for _, hr := range returnsOf(h) {
+			if b, isC := constBool(returnedValue(hr, 0)); !isC || !b {
+				continue
+			}
+			for _, bf := range directFacts(h) {
+				if bf.A.Kind == "cmp" && bf.Holds && bf.A.Op == token.EQL && mustPassEdges(h, hr.Block(), map[edge]bool{bf.E: true}) {
+					if resolve(bf.A.X) == ssa.Value(h.Params[1]) || resolve(bf.A.Y) == ssa.Value(h.Params[1]) {
+						okEq = true
+					}
+				}
+			}
+		}
+		return okEq
+	})
+	return len(member) > 0 && mustPassEdges(vt, r.Block(), member)
+}
+
 func ruleVD4(c *Ctx) {
 	vs, ok1 := c.globalMapLiteral("validStates")
 	vtb, ok2 := c.globalMapLiteral("validTransitions")
+	var tableFn *ssa.Function
+	if !ok2 || len(vtb) == 0 {
+		// the table may be written as a function: switch from { case a: return []string{...}, true ... }
+		if vt := c.F.Anchors["validateTransition"]; vt != nil {
+			vtb, tableFn = c.switchTable(vt)
+			ok2 = tableFn != nil
+		}
+	}
+	if (!ok1 || len(vs) == 0) && ok2 {
+		// the state set as a predicate function (isValidState): taken from the rows of the transition table, which
+		// "rows=states" and "six-states" then pin down
+		vs = map[string]map[string]bool{}
+		for k := range vtb {
+			vs[k] = nil
+		}
+		ok1 = true
+	}
 	if !ok1 || !ok2 || len(vs) == 0 || len(vtb) == 0 {
 		c.unk("ergo.init", "tables", "-", "validStates / validTransitions literals not extractable")
 		return
@@ -992,6 +1135,9 @@ func ruleVD4(c *Ctx) {
 					n++
 				}
 			}
+			if n < 2 && tableFn != nil && c.acceptsViaTableFn(vt, r, tableFn) {
+				n = 2
+			}
 			if n < 2 {
 				okShape = false
 				why = "an accepting return does not require both validTransitions[from] and [to] lookups to succeed; facts: " + factList(facts)
@@ -1007,6 +1153,9 @@ func ruleVD4(c *Ctx) {
 				}
 			}
 		})
+		if tableFn != nil && len(callsTo(vt, tableFn)) > 0 {
+			usesTable = true
+		}
 		c.check(okShape && usesTable, fn, "consults-table", c.FnPos(vt), "accepts only from==to or validTransitions[from][to] present", strings.TrimSpace(why+fmt.Sprintf(" usesTable=%v", usesTable)))
 	}
 	// claim tables
